@@ -13,9 +13,9 @@ import random
 from harness import common, pipelines, tlc
 
 
-def cfg(level, path, chunks=32, sample=6):
+def cfg(level, path, chunks=32):
     with open(path, 'w') as fh:
-        fh.write(f'SPECIFICATION Spec\nCONSTANTS Level = {level}\n NChunks = {chunks}\n Sample = {sample}\nINVARIANT Check\nCHECK_DEADLOCK FALSE\n')
+        fh.write(f'SPECIFICATION Spec\nCONSTANTS Level = {level}\n NChunks = {chunks}\nINVARIANT Check\nCHECK_DEADLOCK FALSE\n')
     return path
 
 
